@@ -596,6 +596,82 @@ func genSwitch(repo string) (string, error) {
 	fmt.Fprintf(&sb, "Definition append_go_value_guarded : bool := %s.\n", coqBool(guardBefore(ag, "appendProtoValue")))
 	fmt.Fprintf(&sb, "Definition map_set_go_value_guarded : bool := %s.\n", coqBool(guardBefore(mg, "setKey")))
 
+	// checkValueKind precedes setValue / appendProtoValue / setKey in the three scalar entry points
+	sfn := findFunc(sf, "scalarField", "SetGoValue")
+	if sfn == nil {
+		return "", fmt.Errorf("type_scalar.go: scalarField.SetGoValue not found")
+	}
+	kindGuard := func(fd *ast.FuncDecl, callee string) bool {
+		guardPos, callPos := token.NoPos, token.NoPos
+		ast.Inspect(fd, func(x ast.Node) bool {
+			if ce, ok := x.(*ast.CallExpr); ok {
+				switch f := ce.Fun.(type) {
+				case *ast.Ident:
+					if f.Name == "checkValueKind" && guardPos == token.NoPos {
+						guardPos = ce.Pos()
+					}
+				case *ast.SelectorExpr:
+					if f.Sel.Name == callee && callPos == token.NoPos {
+						callPos = ce.Pos()
+					}
+				}
+			}
+			return true
+		})
+		return guardPos != token.NoPos && callPos != token.NoPos && guardPos < callPos
+	}
+	sb.WriteString("(* lib/j5reflect/type_scalar.go: checkValueKind is called before setValue / appendProtoValue / setKey *)\n")
+	fmt.Fprintf(&sb, "Definition value_kind_checked : bool := %s.\n", coqBool(kindGuard(sfn, "setValue") && kindGuard(ag, "appendProtoValue") && kindGuard(mg, "setKey")))
+
+	// ---- every explicit panic( call in the files the decoder runs through
+	type psite struct{ file, fn, arg string }
+	var psites []psite
+	for _, rel := range []string{"internal/codec/decoder.go", "internal/codec/query.go", "internal/codec/codec.go",
+		"lib/j5reflect/value_go.go", "lib/j5reflect/type_scalar.go", "lib/j5reflect/type_enum.go", "lib/j5reflect/type_array.go",
+		"lib/j5reflect/type_map.go", "lib/j5reflect/type_oneof.go", "lib/j5reflect/type_object.go", "lib/j5reflect/type_any.go",
+		"lib/j5reflect/property_set.go", "lib/j5reflect/protoval.go", "lib/j5reflect/reflect.go", "j5types/date_j5t/date.go"} {
+		pfs, pf2, err := gen.ParseFile(filepath.Join(repo, rel))
+		if err != nil {
+			return "", err
+		}
+		for _, d := range pf2.Decls {
+			fdl, ok := d.(*ast.FuncDecl)
+			if !ok || fdl.Body == nil {
+				continue
+			}
+			ast.Inspect(fdl.Body, func(x ast.Node) bool {
+				if ce, ok := x.(*ast.CallExpr); ok {
+					if id, ok := ce.Fun.(*ast.Ident); ok && id.Name == "panic" && len(ce.Args) == 1 {
+						arg := exprString(pfs, ce.Args[0])
+						if len(arg) > 60 {
+							arg = arg[:60]
+						}
+						psites = append(psites, psite{rel, fdl.Name.Name, arg})
+					}
+				}
+				return true
+			})
+		}
+	}
+	sort.Slice(psites, func(i, j int) bool {
+		if psites[i].file != psites[j].file {
+			return psites[i].file < psites[j].file
+		}
+		if psites[i].fn != psites[j].fn {
+			return psites[i].fn < psites[j].fn
+		}
+		return psites[i].arg < psites[j].arg
+	})
+	sb.WriteString("(* every explicit panic(...) in decoder.go, query.go, codec.go, the j5reflect files the decoder runs through and date.go: (file, function, argument) *)\n")
+	sb.WriteString("Definition panic_sites : list (string * string * string) := [\n")
+	for i, ps := range psites {
+		if i > 0 {
+			sb.WriteString(";\n")
+		}
+		fmt.Fprintf(&sb, "  (%s, %s, %s)", gen.CoqString(ps.file), gen.CoqString(ps.fn), gen.CoqString(ps.arg))
+	}
+	sb.WriteString("\n].\n")
+
 	// ---- protoval.go: protoPair.setValue clears on an invalid value; list value refuses it
 	_, pf, err := gen.ParseFile(filepath.Join(repo, "lib/j5reflect/protoval.go"))
 	if err != nil {
